@@ -84,6 +84,10 @@ theorem snep_put_sequence_delivers (cfg : SCfg) (cc : CCfg) (msgs : List Bytes) 
   let ⟨N, h⟩ := puts_run cfg cc hc hs msgs n hn.1 hn.2.1 hn.2.2 hall
   ⟨N, fun fuel hf => ⟨(h fuel hf).1, (h fuel hf).2.1, (h fuel hf).2.2⟩⟩
 
+example : (runOps { maxAcc := 100, smiu := 6, h := { valid := fun _ => true, put := fun _ => 0x81, get := fun _ => .inl 0xE0 } }
+    { miu := 7, acc := 10 } 20 Snep.init [(.put, [0xD0, 0, 0]), (.put, [0xD1, 1, 2, 0x54, 7, 8])]).2.dl =
+    [(.put, [0xD0, 0, 0]), (.put, [0xD1, 1, 2, 0x54, 7, 8])] := by decide
+
 /-- **Oversize**: a message longer than the server's acceptable length is never delivered, not
 even in part (`dl` unchanged); the server's only output is the Reject response; the client sent
 nothing beyond the first fragment and reports failure (`False`, or `SnepError(0xFF)` when the
@@ -206,6 +210,12 @@ theorem handover_sequence_roundtrip (cfg : HCfg) (cmiu : Nat) (msgs : List Bytes
       HIdle (runReqs cfg cmiu fuel n msgs).2 :=
   let ⟨N, h⟩ := reqs_run cfg cmiu hc hs hreset msgs n hn.1 hn.2.1 hn.2.2 hall
   ⟨N, fun fuel hf => ⟨(h fuel hf).1, (h fuel hf).2.1, (h fuel hf).2.2⟩⟩
+
+/-- two fragmented requests on one connection of the repaired server (MIU 4 and 2): both delivered, in order -/
+example : (runReqs { smiu := 2, complete := ndefComplete, handler := fun _ => [0xD0, 0, 0], reset := true } 4 6
+    Handover.init [[0xD1, 1, 2, 0x54, 7, 8], [0xD1, 1, 0, 0x54]]).2.dl = [[0xD1, 1, 2, 0x54, 7, 8], [0xD1, 1, 0, 0x54]] ∧
+    (runReqs { smiu := 2, complete := ndefComplete, handler := fun _ => [0xD0, 0, 0], reset := true } 4 6
+    Handover.init [[0xD1, 1, 2, 0x54, 7, 8], [0xD1, 1, 0, 0x54]]).1 = [some [0xD0, 0, 0], some [0xD0, 0, 0]] := by decide
 
 /-- the sequence statement for the server as found (`reset = false`, finding F29) -/
 def AsFoundSequence : Prop :=
